@@ -183,6 +183,82 @@ def _derename(module_name: str, tree: ast.AST) -> None:
     visit(tree.body, "")  # type: ignore[attr-defined]
 
 
+# ``if not c: A else: B`` and ``if c: B else: A`` are the same program.  Rules that read the arms of a conditional (which arm
+# handles which case, which guard protects which statement) see one canonical form: a negated test with a plain ``else`` is
+# flipped.  ``elif`` chains are left alone.
+
+def _normalise_ifs(tree: ast.AST) -> None:
+    for n in ast.walk(tree):
+        if not isinstance(n, ast.If):
+            continue
+        while (
+            isinstance(n.test, ast.UnaryOp)
+            and isinstance(n.test.op, ast.Not)
+            and n.orelse
+            and not (len(n.orelse) == 1 and isinstance(n.orelse[0], ast.If))
+        ):
+            n.test = n.test.operand
+            n.body, n.orelse = n.orelse, n.body
+
+
+# ``a == b`` and ``b == a`` are the same test (likewise ``!=``, ``is``, ``is not``).  Canonical form: a constant-like side (a literal,
+# ``None``, an UPPER_CASE name or enumeration member) stands on the right.  Two non-constant sides keep their order (rules that compare such tests do so modulo the order).
+
+def _constant_like(e: ast.expr) -> bool:
+    if isinstance(e, ast.Constant):
+        return True
+    if isinstance(e, ast.Attribute):
+        return e.attr.isupper()
+    if isinstance(e, ast.Name):
+        return e.id.isupper()
+    if isinstance(e, ast.UnaryOp) and isinstance(e.op, ast.USub):
+        return _constant_like(e.operand)
+    return False
+
+
+def _normalise_symmetric_comparisons(tree: ast.AST) -> None:
+    for n in ast.walk(tree):
+        if isinstance(n, ast.Compare) and len(n.ops) == 1 and isinstance(n.ops[0], (ast.Eq, ast.NotEq, ast.Is, ast.IsNot)):
+            a, b = n.left, n.comparators[0]
+            ca, cb = _constant_like(a), _constant_like(b)
+            if ca and not cb:
+                n.left, n.comparators = b, [a]
+
+
+# ``if c: ...; return  else: REST`` and ``if c: ...; return`` followed by ``REST`` are the same program.  Canonical form: the
+# ``else`` of a conditional whose body always leaves (return / continue / break / raise) is dissolved into the enclosing block.
+# ``elif`` chains keep their shape (the exhaustiveness rules read them as chains).
+
+_LEAVES = (ast.Return, ast.Continue, ast.Break, ast.Raise)
+
+
+def _normalise_else_after_leave(tree: ast.AST) -> None:
+    changed = True
+    while changed:
+        changed = False
+        for owner in ast.walk(tree):
+            for attr in ("body", "orelse", "finalbody"):
+                block = getattr(owner, attr, None)
+                if not (isinstance(block, list) and block and isinstance(block[0], ast.stmt)):
+                    continue
+                if isinstance(owner, ast.If) and attr == "orelse" and len(block) == 1 and isinstance(block[0], ast.If):
+                    continue  # an elif
+                i = 0
+                while i < len(block):
+                    st = block[i]
+                    if (
+                        isinstance(st, ast.If)
+                        and st.orelse
+                        and isinstance(st.body[-1], _LEAVES)
+                        and not (len(st.orelse) == 1 and isinstance(st.orelse[0], ast.If))
+                    ):
+                        rest = st.orelse
+                        st.orelse = []
+                        block[i + 1:i + 1] = rest
+                        changed = True
+                    i += 1
+
+
 class Module:
     def __init__(self, name: str, path: pathlib.Path, relpath: str, source: str):
         self.name = name
@@ -196,6 +272,9 @@ class Module:
         except SyntaxError as exc:
             raise AnalysisError(f"cannot parse {relpath}: {exc}")
         _derename(self.name, self.tree)
+        _normalise_ifs(self.tree)
+        _normalise_symmetric_comparisons(self.tree)
+        _normalise_else_after_leave(self.tree)
         # local name -> dotted target ("pkg.mod" or "pkg.mod.symbol")
         self.imports: Dict[str, str] = {}
         self.functions: Dict[str, FuncInfo] = {}  # by qualname, incl. methods/nested
